@@ -69,7 +69,12 @@ def main(v: Verdict) -> None:
     feats = [(k, r["f"]) for k, r in enumerate(sorted((r for r in recs), key=lambda r: r["f"]))]
     obs = []
     # phase 1: every declaration form alone, default options
-    singles = run_many([{"src": build([(k, f)], f"onepk{k:03d}"), "opts": Opts(), "timeout": 300} for k, f in feats])
+    # docstring forms are run under the style they are written in (and all forms once under the default options)
+    def style_of(f):
+        if f[0] != "doc":
+            return "PLAINTEXT"
+        return "GOOGLE" if "google" in f[1].lower() else "REST" if "rest" in f[1].lower() else "PLAINTEXT" if f[1] == "PLAINTEXT" else "NUMPYDOC"
+    singles = run_many([{"src": build([(k, f)], f"onepk{k:03d}"), "opts": Opts(docstyle=style_of(f)), "timeout": 90} for k, f in feats])
     crashing = set()
     for (k, f), r in zip(feats, singles):
         obs.append({"id": f"single:{f[0]}:{f[1]}", "obs": obs_of(r, f)})
